@@ -646,6 +646,16 @@ fn main() {
         syn_schema: &syn_schema, cfg: Config::default(),
     };
 
+    // replay of one document (./verify C12 --replay <file>): only that document
+    if let Some(i) = args.extra.iter().position(|a| a == "--doc") {
+        let text = std::fs::read_to_string(&args.extra[i + 1]).expect("replay document readable");
+        cx.push_text("replay", text.clone(), true);
+        cx.cases.write(&args.out);
+        write_meta(&args.out, &json!({"evaluations": cx.cases.len(), "distinct_nontrivial": cx.nontrivial.len(),
+            "rule": "replay of one stored document", "samples": [text], "distribution": cx.stats, "direct_failures": cx.direct_failures}));
+        return;
+    }
+
     // 0. corpus: witnesses of known findings and past disagreements
     let corpus: &[(&str, &str)] = &[
         ("unspread-undefined", "query Q { x }\nfragment U on Query { x ...Missing }\n"),
